@@ -84,6 +84,29 @@ func (c *Ctx) Check(ok bool, rule, inst, construct, held, violated string) bool 
 	return ok
 }
 
+// importFrom evaluates another property's rules on the same program and adopts the
+// obligations whose rule id has one of the given prefixes, relabelled under rule.
+func (c *Ctx) importFrom(check func(*Ctx), rule string, prefixes ...string) {
+	sub := NewCtx(c.P, c.Prop, c.Tier)
+	check(sub)
+	n := 0
+	for _, o := range sub.Obs {
+		for _, pre := range prefixes {
+			if o.Rule == pre || strings.HasPrefix(o.Rule, pre+"/") {
+				o.Property = c.Prop
+				o.Instance = o.Rule + " " + o.Instance
+				o.Rule = rule
+				c.Obs = append(c.Obs, o)
+				n++
+				break
+			}
+		}
+	}
+	if n == 0 {
+		c.Unresolved(rule, strings.Join(prefixes, ","), "no obligations imported")
+	}
+}
+
 // Expect declares the minimum number of instances of a rule (prefix match on the rule
 // id) confirmed by hand on the reference tree; fewer instances fail the check, so a
 // rule cannot pass vacuously.
